@@ -621,6 +621,15 @@ def drive : List String → Option String
     let rs ← parseRunning running
     let pl ← parsePayloads payloads
     pure (spec3 cfg rs pl)
+  | ["specx", cfg, payloads] => do
+    -- C02 outside the agent's own states: an installed configuration the (repaired) reader does not
+    -- accept must stop the run before anything is loaded — merging an update into a policy-statement
+    -- whose content is not fully understood can leave an accepting term nobody checked
+    let cfg ← parseCfg cfg
+    let pl ← parsePayloads payloads
+    pure (match readInstalled .fixed cfg, pl with
+      | .error _, some (_ :: _) => "violation update-into-unreadable-configuration"
+      | _, _ => "ok")
   | _ => none
 
 end Policy
